@@ -72,7 +72,7 @@ theorem bytes_wrong_size (kw : Kw) (n : Nat) (x : Bits) (h : x.length ≠ 8 * n)
 /-- … hex strings with another number of digits. -/
 theorem hex_wrong_size (kw : Kw) (n : Nat) (s : Str) (hs : s.all isLowerHex = true) (h : 4 * s.length ≠ n) :
     tokBits kw ⟨"hex".toList, some (.int n), none⟩ (some (.str s)) = .error .value := by
-  sorry
+  exact hex_wrong_size' kw n s hs h
 
 /-! ### arity -/
 
@@ -158,7 +158,7 @@ theorem unpack_pack (kw : Kw) (ts : List Tok) (vs : List Val) (b : Bits) (ds : L
     (hc : conform kw ts vs = true)
     (hp : packT kw ts vs = .ok b) :
     readDtypeList b ds 0 = .ok (vs, b.length) := by
-  sorry
+  exact unpack_pack' kw ts vs b ds st after hplain hd hwf hc hp
 
 /-- the first pass computes what the statement calls "the bits after the length-less token" -/
 theorem pass1_no_stretchy (ds : List DT) (h : ∀ d ∈ ds, d.stretchy = false) :
